@@ -5,9 +5,42 @@ ROOT = os.path.dirname(os.path.dirname(os.path.abspath(__file__)))
 
 # id -> (technique, level text, level note, design_ref)
 CLAIMED = {
+ "C04": ("proptest-generated families + independent text-format 0.0.4 parser round trip; append/concat metamorphic relations; libFuzzer in the thorough tier",
+         "Exploration: generated metric families (adversarial help/label strings, every f64 class, all four printable types, custom and gathered) are encoded and read back by a parser written from the format description; the parsed record sequence must equal the one computed from the input. Samples the input space.",
+         "Trusted: the reference parser (Appendix B of DESIGN.md) and the neutral family records read through the public getters.", "§4 C04"),
  "C05": ("proptest-generated request sequences + reference map model (one child per tuple via unique-bit updates); libFuzzer in the thorough tier",
          "Exploration: generated vector kinds, label-name lists and request sequences biased to boundary-shifted, permuted and repeated tuples, checked against a BTreeMap model after every request and at the end; samples the input space, does not exhaust it.",
          "Trusted: the harness model; equality is up to 64-bit FNV collisions, which are not constructed.", "§4 C05"),
+ "C06": ("proptest-generated register/unregister/gather histories (stateful) + reference admission model + twin/fresh-replica registries (metamorphic)",
+         "Exploration: generated histories over overlapping collectors incl. multi-descriptor ones refused part-way; every result and every gather() is compared with a reference model and with registries that never saw the refused calls.",
+         "Trusted: the admission model derived from the statement; self-inconsistent collectors are out of domain.", "§4 C06"),
+ "C07": ("proptest-generated registry scenarios + model of the prescribed gather() result + rebuild-and-compare determinism (permuted registration, fresh hash seeds, fresh processes)",
+         "Exploration: generated scenarios are gathered and compared with the result the statement prescribes, then rebuilt 5 times under other registration orders / hash seeds and in other processes; all must be identical.",
+         "Trusted: the scenario model; hash seeds are sampled (std RandomState per map / per process), not enumerated.", "§4 C07"),
+ "C08": ("proptest-generated bucket lists and f64 observation sequences + acceptance predicate + naive count/sum reference; libFuzzer in the thorough tier",
+         "Exploration: generated bucket configurations (half invalid) and observation sequences over every f64 class through Histogram, HistogramVec children and LocalHistogram, compared with a naive reference after generated collections.",
+         "Trusted: the reference fold; single-threaded histories only (concurrency is C02/C03).", "§4 C08"),
+ "C09": ("proptest-generated name/label/help strings incl. non-ASCII + independent byte-level recognisers; validity of every gathered sample",
+         "Exploration: generated constructor arguments and registry prefix/common labels; Ok/Err must follow the two regular languages and the duplicate / le / help rules, and every gathered name must be valid and pairwise distinct per sample.",
+         "Trusted: the recognisers. One known finding (registry common label equal to a metric label) is reported as KNOWN-FINDING.", "§4 C09"),
+ "C12": ("proptest-generated local/shared update, flush, reset, clone, drop, remove histories (stateful) + reference model per shared child object",
+         "Exploration: generated histories over up to 4 local handles of one shared counter / histogram / vector; shared values (also of detached children) and every local's pending data are compared with the model after every operation.",
+         "Trusted: the model, which mirrors float addition order; single-threaded.", "§4 C12"),
+ "C13": ("proptest-generated families incl. unset optional fields + hand-written proto2 wire decoder round trip; libFuzzer in the thorough tier",
+         "Exploration: generated families of every MetricType are encoded and decoded by an independent wire decoder; framing, field numbers, wire types, UTF-8, values (bit-exact) and presence must match the input.",
+         "Trusted: the decoder and its hand-transcribed schema. Protobuf build only.", "§4 C13"),
+ "C14": ("proptest-generated registry scenarios incl. mixed kinds under one name + payload-kind / real-value oracle + type stability across rebuilds",
+         "Exploration: generated scenarios gathered 6 times; every sample must carry exactly the payload of its family's type and read as the metric's real value. The mixed-kind class is a known finding (KNOWN-FINDING), anything else is a violation.",
+         "Trusted: the scenario's knowledge of each metric's real value; payload presence observable in the protobuf build only.", "§4 C14"),
+ "C15": ("proptest-generated descriptor pairs from adversarial pools + independently computed structural keys <=> hash equality; registry verdicts follow the keys",
+         "Exploration: generated pairs (boundary shifts, order/route changes, const-vs-variable placement) through Desc::new, Opts and HistogramOpts.",
+         "Trusted: the structural keys; up to 64-bit hash collisions.", "§4 C15"),
+ "C17": ("proptest-generated arbitrary arguments for every Result-returning API + catch_unwind no-panic oracle + documented Ok/Err expectations; libFuzzer in the thorough tier",
+         "Exploration: 1-8 generated calls per case over 27 fallible entry points with arbitrary Unicode, cardinalities, f64 parameters, arbitrary families and failing writers.",
+         "Trusted: the recognisers of C08/C09 for the Ok/Err expectation; documented-panic entry points are not called.", "§4 C17"),
+ "C18": ("proptest-generated timer start/stop/discard/drop/move-to-thread histories (stateful) + count model and exact-duration check",
+         "Exploration: generated histories over shared and local timers incl. cross-thread ends; counts after every operation and the sum increment against the returned duration.",
+         "Trusted: the count model; nothing depends on elapsed time.", "§4 C18"),
 }
 NOT_YET = {}
 
